@@ -516,9 +516,30 @@ def scenario_determinism(rng, props, fails, stats):
     return describe(p, kw)
 
 
+def _packaged_scaler_on_stationary_start(n, fails):
+    """C17/C04: the packaged scaler is called on whatever start the run is given - also a stationary one (every
+    variable on a bound with the gradient pushing outward): the run must end with a documented, truthful report."""
+    from lbfgsb import get_gradient_projection_unit_scaling
+    c = np.arange(1.0, n + 1.0)
+    x0 = np.zeros(n)
+    try:
+        r = minimize_lbfgsb(x0=x0, fun=lambda x: float(c @ x), jac=lambda x: c.copy(),
+                            bounds=np.array([np.zeros(n), np.ones(n)]).T,
+                            gradient_scaler=get_gradient_projection_unit_scaling)
+    except Exception as e:       # noqa: BLE001
+        fails.append(("C17", f"packaged scaler on a stationary start: run raised {type(e).__name__}: {e}"))
+        return
+    if not (np.isfinite(r.fun) and np.all(np.isfinite(r.jac)) and r.success
+            and str(r.message).startswith("CONVERGENCE: NORM_OF_PROJECTED_GRADIENT")):
+        for pid in ("C17", "C04"):
+            fails.append((pid, f"packaged scaler on a stationary start: message {r.message!r}, fun {r.fun}, "
+                               f"success {r.success}"))
+
+
 def scenario_scaler(rng, props, fails, stats):
     """C17: scaler returning s  ==  no scaler on (s*f, s*grad f)."""
     p = problem(rng)
+    _packaged_scaler_on_stationary_start(p.n, fails)
     s = float(10 ** rng.uniform(-3, 3))
     sc_calls = []
     recA = Rec(p)
